@@ -23,6 +23,8 @@
 (*   op      layer 2: an operation of scheme/reg starts (tc)               *)
 (*   result  layer 2: the operation returned (eqret, eqstate: equal to     *)
 (*           the fault-free run)                                           *)
+(*   hang    a call is parked for good (the driver proved it from the      *)
+(*           goroutine dump); obligation no-termination                    *)
 (*   note    ignored                                                       *)
 (* All times and durations are integers in one unit (micro seconds in real *)
 (* traces, abstract ticks when (D) RegHttp.tla is checked against (P)).    *)
@@ -223,6 +225,7 @@ PStep(m, e) ==
     [] e.ev = "cut"    -> PCut(m, e)
     [] e.ev = "ret"    -> PRet(m, e)
     [] e.ev = "result" -> PResult(m, e)
+    [] e.ev = "hang"   -> Fail(m, "no-termination")
     [] e.ev = "note"   -> m
     [] OTHER           -> Fail(m, "trace-malformed")
 
